@@ -15,6 +15,17 @@ from . import payload
 
 async_signal_handler_set = False
 
+
+class _ServerPayload(payload.Payload):
+    """A polling response from the server.
+
+    The limit on the number of packets in a payload protects servers from
+    misbehaving clients. A server returns everything it has queued in one
+    response, so the client does not apply that limit.
+    """
+    max_decode_packets = float('inf')
+
+
 # this set is used to keep references to background tasks to prevent them from
 # being garbage collected mid-execution. Solution taken from
 # https://docs.python.org/3/library/asyncio-task.html#asyncio.create_task
@@ -252,7 +263,7 @@ class AsyncClient(base_client.BaseClient):
                 'Unexpected status code {} in server response'.format(
                     r.status), arg)
         try:
-            p = payload.Payload(encoded_payload=(await r.read()).decode(
+            p = _ServerPayload(encoded_payload=(await r.read()).decode(
                 'utf-8'))
         except ValueError:
             raise exceptions.ConnectionError(
@@ -534,7 +545,7 @@ class AsyncClient(base_client.BaseClient):
                 await self.queue.put(None)
                 break
             try:
-                p = payload.Payload(encoded_payload=(await r.read()).decode(
+                p = _ServerPayload(encoded_payload=(await r.read()).decode(
                     'utf-8'))
             except ValueError:
                 self.logger.warning(
